@@ -153,10 +153,11 @@ path = "{src}/main.rs"
 wgsl_to_wgpu = {{ path = "{repo}/wgsl_to_wgpu", features = ["verif"] }}
 naga = {{ version = "=24.0.0", features = ["wgsl-in"] }}
 serde_json = "1"
-syn = {{ version = "2", features = ["full"] }}
+syn = {{ version = "2", features = ["full", "visit-mut"] }}
 prettyplease = "0.2"
 libc = "0.2"
 quote = "1"
+proc-macro2 = "1"
 
 [profile.dev]
 debug = 1
